@@ -31,7 +31,7 @@ func sweepTier(tier string, quick, thorough bx.Tier) bx.Tier {
 }
 
 var (
-	quickSweep    = bx.Tier{PN: 4, SK: 1, LASCII: 4, LBig: 3, LUTF8: 3, LUTF8Big: 2, LRaw: 3, LRawBig: 2, EmbedW: 1, EmbedPN: 3, TokL: 3, TokN: 5, SeedEmbW: 1, SeedJ: []int{0, 33}, SeedEmbFirst: 600, Budget: 150 * time.Second}
+	quickSweep    = bx.Tier{PN: 4, SK: 1, LASCII: 4, LBig: 3, LUTF8: 3, LUTF8Big: 2, LRaw: 3, LRawBig: 2, EmbedW: 1, EmbedPN: 3, TokL: 3, TokN: 5, SeedEmbW: 2, SeedEmbTokN: 8, SeedJ: []int{0, 33}, SeedEmbFirst: 90, Budget: 150 * time.Second}
 	thoroughSweep = bx.Tier{PN: 5, SK: 2, LASCII: 4, LUTF8: 3, LRaw: 3, EmbedW: 1, TokL: 3, TokN: 7, SeedEmbW: 1, Budget: 40 * time.Minute}
 )
 
@@ -93,7 +93,7 @@ func init() {
 			return func(cx *bx.Ctx, h []byte, hi int) bool { return cx.OpsC03(h) }
 		})
 	// the enumeration / cross-view checks run ~10x more evaluations per (pattern, haystack): smaller haystack sets
-	q4 := bx.Tier{PN: 4, SK: 1, LASCII: 3, LBig: 2, LUTF8: 2, LUTF8Big: 2, LRaw: 2, LRawBig: 1, EmbedW: 1, EmbedPN: 2, TokL: 2, TokN: 5, SeedEmbW: 1, SeedJ: []int{0, 33}, SeedEmbFirst: 300, Budget: 150 * time.Second}
+	q4 := bx.Tier{PN: 4, SK: 1, LASCII: 3, LBig: 2, LUTF8: 2, LUTF8Big: 2, LRaw: 2, LRawBig: 1, EmbedW: 1, EmbedPN: 2, TokL: 2, TokN: 5, SeedEmbW: 2, SeedEmbTokN: 8, SeedJ: []int{0, 33}, SeedEmbFirst: 90, Budget: 150 * time.Second}
 	t4 := thoroughSweep
 	t4.PN = 4
 	t4.LASCII = 5
